@@ -364,6 +364,9 @@ pub fn replay(case: &Value) -> Vec<Violation> {
     quiet_panics();
     let mut st = Stats::default();
     let kind = case["dir"].as_str().unwrap_or("ram").to_string();
+    if case.get("point").is_some() {
+        return crate::preempt_family::replay(case);
+    }
     if case["kind"] == "lock_protocol" {
         return crate::c18lock::replay().into_iter().map(|v| Violation::new(&v.rule, v.what, case.clone())).collect();
     }
@@ -467,12 +470,17 @@ pub fn run(ctx: &Ctx) -> Report {
             Err(e) => st.violation(Violation::new("lifecycle_panic", format!("race: {}", panic_message(e)), json!({"kind":"race","dir":kind}))),
         }
     }
+    // the lock during wait_merging_threads: a second writer attempted at every storage operation of the merge
+    let p = crate::preempt_family::run_family(ctx, "C18");
+    rep.set("preemption_scenarios", Value::Array(p.info));
+    let pcomplete = p.complete;
+    st.merge(p.st);
     // MmapDirectory's flock protocol: programs extracted from the system-call trace, all interleavings explored
     let lock_info = crate::c18lock::run_family(thorough, &mut st);
     rep.set("mmap_lock_protocol", lock_info);
-    rep.set("exhaustive", o.complete && done == work.len());
+    rep.set("exhaustive", o.complete && done == work.len() && pcomplete);
     rep.set("sequences", work.len() as u64);
-    rep.set("rule", "every sequence of exactly 4 (thorough 5) lifecycle steps over 2 handles (a clone and a separately opened Index of the same directory; thorough also 3 handles) x {create with valid options, with 0 threads / 1 kB budget / 4 GiB budget / 0 merge threads, rollback, drop, wait_merging_threads, prepare+abort, kill an indexing worker, commit} restricted to applicable steps, on RamDirectory, SimDirectory and MmapDirectory (one step less): creation succeeds iff no writer is alive on any handle, a refused creation is a lock failure and leaves the live writer able to add + commit, and after releasing everything every handle can create a writer. Concurrent attempts on MmapDirectory: the system-call programs of a successful acquisition, a busy acquisition and a release of the writer lock and of the meta lock are extracted from a strace of the real code, and an explicit-state search explores every interleaving of 3 (thorough 4) contenders x 2 rounds of these programs over a model of the name space and of flock (a lock belongs to an open file description of an inode, not to the path): never two holders, no deadlock, the lock is free at the end. Auxiliary (sampled, not part of the exhaustive claim): 4 threads racing to create a writer, 300 (3000) rounds per directory kind. Non-trivial: sequence with >= 2 valid creation attempts; sequences are distinct by construction");
+    rep.set("rule", "every sequence of exactly 4 (thorough 5) lifecycle steps over 2 handles (a clone and a separately opened Index of the same directory; thorough also 3 handles) x {create with valid options, with 0 threads / 1 kB budget / 4 GiB budget / 0 merge threads, rollback, drop, wait_merging_threads, prepare+abort, kill an indexing worker, commit} restricted to applicable steps, on RamDirectory, SimDirectory and MmapDirectory (one step less): creation succeeds iff no writer is alive on any handle, a refused creation is a lock failure and leaves the live writer able to add + commit, and after releasing everything every handle can create a writer. While wait_merging_threads() is blocked on a merge, a second writer is attempted on another Index handle in front of every storage operation and hook point of the merge thread: always refused with a lock error, and the lock is free afterwards. Concurrent attempts on MmapDirectory: the system-call programs of a successful acquisition, a busy acquisition and a release of the writer lock and of the meta lock are extracted from a strace of the real code, and an explicit-state search explores every interleaving of 3 (thorough 4) contenders x 2 rounds of these programs over a model of the name space and of flock (a lock belongs to an open file description of an inode, not to the path): never two holders, no deadlock, the lock is free at the end. Auxiliary (sampled, not part of the exhaustive claim): 4 threads racing to create a writer, 300 (3000) rounds per directory kind. Non-trivial: sequence with >= 2 valid creation attempts; sequences are distinct by construction");
     for k in ["writers_created", "refused_creations", "failed_constructions", "rollbacks", "workers_killed", "race_rounds", "lock_model_states", "lock_model_final_states"] {
         if st.counters.get(k).copied().unwrap_or(0) == 0 {
             rep.machinery_errors.push(format!("vacuous: {k} = 0"));
